@@ -20,7 +20,7 @@ use crate::config::RegExpConfig;
 use crate::dfa::Dfa;
 use crate::expression::Expression;
 use itertools::Itertools;
-use regex::Regex;
+use regex::{Regex, RegexBuilder};
 use std::cmp::Ordering;
 use std::fmt::{Display, Formatter, Result};
 
@@ -96,12 +96,31 @@ impl<'a> RegExp<'a> {
             .map(|it| {
                 let lower_test_case = it.to_lowercase();
                 if lower_test_case.chars().count() == it.chars().count() {
-                    lower_test_case
+                    // Keep a lowercase character only if the regex crate folds it back to
+                    // the original one. Its case folding tables may be older than those of
+                    // the standard library, otherwise "Ᲊ" -> "ᲊ" would not match "Ᲊ".
+                    it.chars()
+                        .zip(lower_test_case.chars())
+                        .map(|(original, lower)| {
+                            if original == lower || Self::is_case_folding_known(lower, original) {
+                                lower
+                            } else {
+                                original
+                            }
+                        })
+                        .collect()
                 } else {
                     it.to_string()
                 }
             })
             .collect_vec();
+    }
+
+    fn is_case_folding_known(lower: char, original: char) -> bool {
+        RegexBuilder::new(&regex::escape(&lower.to_string()))
+            .case_insensitive(true)
+            .build()
+            .is_ok_and(|regex| regex.is_match(&original.to_string()))
     }
 
     fn convert_expr_to_regex(expr: &Expression, config: &RegExpConfig) -> Regex {
